@@ -1,4 +1,6 @@
 import PdtVerif.Lemmas.FeatStats
+import PdtVerif.Lemmas.FeatStatsDeltaLayout
+import PdtVerif.Lemmas.FeatStatsMvnLayout
 /-!
 # C18 — normalisation statistics, deltas and returns equal their defining formulas
 
@@ -488,6 +490,48 @@ theorem C18_delta_pad_once_not_per_order :
     deltaSpec 1 (extAt .replicate [0, 1, 4]) 2 0 = 1 ∧
     (deltaRepad .replicate 1 [0, 1, 4] 2).getD 0 0 = 3 / 4 := by decide +kernel
 
+/-! ## Deltas: the layout -/
+
+/-- **C18_delta_layout.**  For a tensor of ANY rank, any `dim` / `time_dim` (negative aliases
+included), stacking or concatenation, any order, width and pad mode: the model of
+`feat_deltas` — which follows the code's chain `transpose(time_dim, -1)`, flatten to rows, pad,
+`conv1d`, `view`, `transpose(-2, -1)`, `transpose(time_dim, -2)`, `movedim(-1, dim)`,
+`flatten(dim, dim + 1)` on a row-major buffer — IS the declarative index map
+`featDeltasSpec`: it raises (`none`) exactly when the width is 0, `time_dim` or `dim` is out
+of range, or the padding is illegal for a non-empty input; otherwise the output has the shape
+of `x` with an axis of size `order + 1` inserted at `dim` (stack) or with axis `dim`
+multiplied by `order + 1` (concatenate, order-major: entry `u·S + c` of that axis is order `u`
+of coefficient `c`), and its entry at `(…, u, …)` is `deltaSpec w (extAt mode signal) u t` — the
+recursive regression formula of order `u` at frame `t` on the edge-extended 1-D signal that
+runs along `time_dim` through the remaining coordinates.  No hypothesis on `x` (not even
+`data.length = prod shape`). -/
+theorem C18_delta_layout (x : Tensor) (dim timeDim : Int) (concatenate : Bool) (order w : Nat)
+    (mode : PadMode) :
+    featDeltas x dim timeDim concatenate order w mode
+      = featDeltasSpec x dim timeDim concatenate order w mode := by
+  unfold featDeltas featDeltasSpec
+  by_cases hw : w < 1
+  · simp [deltaFilters, hw]
+  · cases hfs : deltaFilters order w with
+    | none => simp [deltaFilters, hw] at hfs
+    | some fs =>
+      simp only [hw, if_false]
+      cases htd : normDim timeDim x.shape.length with
+      | none => simp
+      | some td =>
+        cases hdm : normDim dim (if concatenate = true then x.shape.length else x.shape.length + 1) with
+        | none => simp
+        | some dm =>
+          have htd' := normDim_some htd
+          have hdm' := normDim_some hdm
+          obtain ⟨m, hm⟩ : ∃ m, x.shape.length = m + 1 := ⟨x.shape.length - 1, by omega⟩
+          have hcore := featDeltasCore_eq x m td dm order w concatenate mode fs hm (by omega)
+            (by cases concatenate <;> simp at hdm' ⊢ <;> omega)
+            (fun row outs h => C18_delta_row mode order w fs hfs row outs h)
+          simp only [Option.bind_eq_bind, Option.bind_some, Option.pure_def]
+          rw [hcore]
+          split <;> rfl
+
 /-! ## The tensor level -/
 
 /-- `accumulate` on tensors is `accumulateCols` on the coefficient columns
@@ -497,6 +541,64 @@ theorem C18_accumulate_tensors (dim : Nat) (xs : List Tensor) :
     accumulateAll dim xs = accumulateAllCols (xs.map (fun x => columns x dim)) := by
   unfold accumulateAll accumulateAllCols accumulate
   rw [List.foldl_map]
+
+/-- **C18_columns_entries.**  For a tensor of any rank and any normalised dimension `dim`:
+coefficient `i`'s frame list in the model of `accumulate` / `forward`
+(`x.transpose(0, dim).unsqueeze(-1).flatten(1)`, row `i`) is a rearrangement of exactly those
+entries of `x` whose `dim`-th coordinate is `i` (`coeffEntries`: flat positions `k` with
+`unravel(shape, k)[dim] = i`) — every such entry once, no other entry. -/
+theorem C18_columns_entries (x : Tensor) (dim : Nat) (hdim : dim < x.shape.length) (i : Nat)
+    (hi : i < x.shape.getD dim 1) :
+    ((columns x dim).getD i []).Perm (coeffEntries x dim i) := by
+  rw [columns_getD x _ dim rfl hdim i hi]
+  unfold coeffEntries
+  have := (column_positions_perm x _ dim rfl hdim i hi).map (fun k => x.data.getD k 0)
+  rwa [List.map_map] at this
+
+/-- **C18_accumulate_entries.**  End to end on tensors: after any history `xs` of `accumulate`
+calls (tensors of one rank, `X` coefficients along `dim`), the buffers hold for every
+coefficient `i` the number / sum / sum of squares of ALL entries of all tensors whose `dim`-th
+coordinate is `i` — `pool` is any rearrangement of those entries; with `C18_store` this makes
+the stored statistics the pooled mean and variance of exactly those entries. -/
+theorem C18_accumulate_entries (dim : Nat) (xs : List Tensor) (X : Nat) (a : Acc)
+    (hdim : ∀ x ∈ xs, dim < x.shape.length) (hX : ∀ x ∈ xs, x.shape.getD dim 1 = X)
+    (h : accumulateAll dim xs = some a) (i : Nat) (hi : i < X) (pool : List Rat)
+    (hp : pool.Perm (xs.flatMap (fun x => coeffEntries x dim i))) :
+    a.count = pool.length ∧ a.sum.getD i 0 = pool.sum ∧ a.sumsq.getD i 0 = sumSq pool := by
+  rw [C18_accumulate_tensors] at h
+  have hlen : ∀ x ∈ xs, ∀ j, j < X → ((columns x dim).getD j []).length = x.numel / X := by
+    intro x hx j hj
+    rw [columns_getD x _ dim rfl (hdim x hx) j (by rw [hX x hx]; exact hj), hX x hx]
+    simp
+  apply C18_accumulate (xs.map (fun x => columns x dim)) X a ?_ ?_ h i hi pool
+  · refine hp.trans ?_
+    rw [List.flatMap_map]
+    apply List.Perm.flatMap_left
+    intro x hx
+    exact (C18_columns_entries x dim (hdim x hx) i (by rw [hX x hx]; exact hi)).symm
+  · intro c hc
+    obtain ⟨x, hx, rfl⟩ := List.mem_map.mp hc
+    rw [columns_length, hX x hx]
+  · intro c hc j hj
+    obtain ⟨x, hx, rfl⟩ := List.mem_map.mp hc
+    have h0 : ((columns x dim).headD []) = (columns x dim).getD 0 [] := by
+      cases columns x dim <;> rfl
+    rw [h0, hlen x hx j hj, hlen x hx 0 (by omega)]
+
+/-- **C18_forward_layout.**  On tensors of any rank and any normalised `dim`, the model of
+`mean_var_norm` (`transpose(0, dim)…flatten(1)`, normalise every column, reshape and transpose
+back) IS the documented formula entry by entry: the output has the shape of `x` and its entry at
+flat position `k` is `(x[k] − mean[i]) / max(std[i], eps)` with `i` the `dim`-th coordinate of
+`k` — for stored statistics, for the input's own mean (`mean? = none`: the mean of
+`columns`, i.e. by `C18_columns_entries` of the entries with coordinate `i`) and for `sqrtOwn`
+standing for the trusted `sqrt` of the own variance. -/
+theorem C18_forward_layout (x : Tensor) (dim : Nat) (hdim : dim < x.shape.length)
+    (mean? std? : Option (List Rat)) (sq : List Rat) (eps : Rat)
+    (hmu : (mean?.getD ((columns x dim).map mean)).length = x.shape.getD dim 1)
+    (hsd : (std?.getD sq).length = x.shape.getD dim 1) :
+    (meanVarNorm x dim mean? std? sq eps).2.2
+      = mvnSpec x dim (mean?.getD ((columns x dim).map mean)) (std?.getD sq) eps :=
+  meanVarNorm_layout x _ dim rfl hdim mean? std? sq eps hmu hsd
 
 /-! ## Non-vacuity: the hypotheses are satisfiable on concrete inputs -/
 
@@ -531,6 +633,24 @@ example : deltaRow .replicate 2 1 [[0, 0, 1, 0, 0], [0, -1 / 2, 0, 1 / 2, 0], [1
     [0, 1, 4] = some [[0, 1, 4], [1 / 2, 2, 3 / 2], [1, 1 / 2, -1]] := by decide +kernel
 example : deltaRow .reflect 1 2 [[0, 0, 1, 0, 0], [-1 / 5, -1 / 10, 0, 1 / 10, 1 / 5]] [0, 1] = none := by
   decide +kernel
-
+-- layout: stack on a new leading axis; concatenate (order-major) on the last axis; dim out of range
+example : featDeltas ⟨[2, 3], [0, 1, 4, 3, 4, 5]⟩ 0 (-1) false 1 1 .replicate
+    = some ⟨[2, 2, 3], [0, 1, 4, 3, 4, 5, 1 / 2, 2, 3 / 2, 1 / 2, 1, 1 / 2]⟩ := by decide +kernel
+example : featDeltas ⟨[2, 3], [0, 1, 4, 3, 4, 5]⟩ (-1) 0 true 1 1 (.constant 1)
+    = some ⟨[2, 6], [0, 1, 4, 1, 3 / 2, 2, 3, 4, 5, 1 / 2, 0, -3 / 2]⟩ := by decide +kernel
+example : featDeltas ⟨[2, 3], [0, 1, 4, 3, 4, 5]⟩ 2 0 true 1 1 (.constant 1) = none ∧
+    featDeltasSpec ⟨[2, 3], [0, 1, 4, 3, 4, 5]⟩ 2 0 true 1 1 (.constant 1) = none := by decide +kernel
+-- reflect needs pad < T: order 2, width 1 on 3 frames is legal, on 2 frames it is not
+example : featDeltas ⟨[2, 3], [0, 1, 4, 3, 4, 5]⟩ 0 1 true 2 1 .reflect
+    = some ⟨[6, 3], [0, 1, 4, 3, 4, 5, 0, 2, 0, 0, 1, 0, 2, 0, -2, 1, 0, -1]⟩ ∧
+    featDeltas ⟨[3, 2], [0, 1, 4, 3, 4, 5]⟩ 0 1 true 2 1 .reflect = none := by decide +kernel
+-- columns of a rank-3 tensor along its last axis: a rearrangement (not the row-major order) of
+-- the entries with that coordinate
+example : columns ⟨[2, 2, 2], [1, 2, 3, 4, 5, 6, 7, 8]⟩ 2 = [[1, 5, 3, 7], [2, 6, 4, 8]] ∧
+    coeffEntries ⟨[2, 2, 2], [1, 2, 3, 4, 5, 6, 7, 8]⟩ 2 0 = [1, 3, 5, 7] ∧
+    coeffEntries ⟨[2, 2, 2], [1, 2, 3, 4, 5, 6, 7, 8]⟩ 2 1 = [2, 4, 6, 8] := by decide +kernel
+example : (meanVarNorm ⟨[2, 2], [1, 2, 5, 4]⟩ 1 (some [3, 3]) (some [2, 1]) [] 0).2.2
+    = ⟨[2, 2], [-1, -1, 1, 1]⟩ ∧ mvnSpec ⟨[2, 2], [1, 2, 5, 4]⟩ 1 [3, 3] [2, 1] 0 = ⟨[2, 2], [-1, -1, 1, 1]⟩ := by
+  decide +kernel
 
 end PdtVerif.FeatStats
